@@ -240,6 +240,7 @@ pub fn run(rp: &Replay, st: &mut Stats) -> Option<Violation> {
                 let r = sut_call(op, || if is_read { o.read() } else { o.write(value).then_some(0) });
                 st.calls += 1;
                 let trace = std::mem::take(&mut world().cpu.trace);
+                st.fold_trace(&trace);
                 let got = match r {
                     Err(m) => return Some(viol(&["C18"], "panic", i, format!("port {op} panicked: {m}"))),
                     Ok(v) => v,
